@@ -1,16 +1,18 @@
 '''C20 Reshaping and relational operations follow their relational definitions.'''
 from sfa.report import Ctx
+from sfa.rules import reshaperules
 from sfa.rules import table
 
 LEVEL_TEXT = (
-    'Static decision of a structural clause of C20: join_inner/left/right/outer pass the like-named Join member and forward every own parameter by name; _join handles every member of Join and raises otherwise; its LEFT and RIGHT index branches are mirror images (left<->right, PairLeft<->PairRight, tuple order). Not decided: pivot, pivot_stack/unstack and join matching, which are relational computations over values.')
+    'Static decision of a structural clause of C20: join_inner/left/right/outer pass the like-named Join member and forward every own parameter by name; _join handles every member of Join and raises otherwise; its LEFT and RIGHT index branches are mirror images (left<->right, PairLeft<->PairRight, tuple order). Frame.pivot applies its unique-value index positionally only on paths on which the rows were brought into that index\'s order (reindex to its flat form / concatenation on it / equality test), decided per path on the symbolic store. Not decided: the aggregation itself, pivot_stack/unstack and join matching, which are relational computations over values.')
 
 CLAIM = dict(
     text=LEVEL_TEXT,
-    technique='dispatch-table exhaustiveness + mirrored-sibling structural comparison',
+    technique='dispatch-table exhaustiveness + sidedness-aware mirror comparison + per-path order-evidence dataflow before positional relabel',
     design_ref='DESIGN.md section 2.G and section 3 C20',
 )
 
 
 def run(ctx: Ctx) -> None:
     table.t8_join(ctx)
+    reshaperules.pivot_positional_relabel(ctx)
